@@ -94,7 +94,7 @@ func genC08(t *core.Tape, tier string) *Scenario {
 		if concurrent {
 			p.Task = i % 2
 		}
-		makeBad(t, sc, p, &c, &h, codec, t.Pick([]int{5, 2, 2}, "badness"))
+		makeBad(t, sc, p, &c, &h, codec, t.Pick([]int{5, 2, 2, 1}, "badness"))
 		if !p.Split {
 			earlyExitKnobs(p) // a call may fail early (corrupt neighbour, injected failure)
 		}
@@ -210,6 +210,27 @@ func makeBad(t *core.Tape, sc *Scenario, p *CallPlan, c *ClientCfg, h *HandlerCf
 		}
 		p.bad = fmt.Sprintf("corrupt-response-%d", kind)
 		sc.Notes["bad_corrupt_response"]++
+	case 3: // compressed with an algorithm the handler lacks (reference client)
+		lacking := ""
+		for _, a := range []string{"a", "b", "c", "zstd"} {
+			if !contains(supportedBy(h), a) {
+				lacking = a
+				break
+			}
+		}
+		o := ref.EncOpts{Encoding: lacking}
+		hdr := ref.RequestHeader(ref.Proto(c.Proto), streaming, codec, o, "", nil)
+		payload := []byte("whatever")
+		var body []byte
+		if streaming {
+			body = ref.AppendEnvelope(nil, ref.FlagCompressed, payload)
+		} else {
+			body = payload
+		}
+		p.Raw = &RawReq{Method: "POST", Header: hdr, Body: body}
+		p.K.HTTP2 = true
+		p.bad = "unsupported-compression"
+		sc.Notes["unsupported_compression_calls"]++
 	default:
 		sc.Notes["good_calls"]++
 	}
@@ -290,6 +311,30 @@ func checkC08(w *World, st core.Status, r *RunResult) []Violation {
 			}
 			if len(o.H.Recv) > 0 {
 				add("corrupt-request/delivered-to-user-code", fmt.Sprintf("user code received %d message(s) from a request whose only message is corrupt", len(o.H.Recv)))
+			}
+			continue
+		case p.bad == "unsupported-compression":
+			if ex == nil {
+				continue
+			}
+			r.Probes["unsupported_compression_checked"]++
+			resp, err := ref.DecodeResponse(ref.Proto(ccfg.Proto), streaming, p.Raw.Header.Get("Content-Type"), ex.Status, ex.RespHeader, ex.Down.Bytes(), ex.Trailer, harnessDecomp)
+			switch {
+			case err != nil:
+				if faultFired == 0 {
+					add("unsupported-compression/response-malformed", err.Error())
+				}
+			case resp.Err == nil || resp.Err.Code != 12:
+				add("unsupported-compression/wrong-code", fmt.Sprintf("answered with %+v, want unimplemented", resp.Err))
+			default:
+				for _, name := range supportedBy(h) {
+					if !strings.Contains(resp.Err.Message, name) {
+						add("unsupported-compression/message", fmt.Sprintf("error message %q does not list supported algorithm %q", resp.Err.Message, name))
+					}
+				}
+			}
+			if o.H.Entered != 0 {
+				add("unsupported-compression/user-code-ran", "user code ran")
 			}
 			continue
 		case strings.HasPrefix(p.bad, "corrupt-response"):
